@@ -48,6 +48,9 @@ struct St {
     busy: bool,
     consumed: Vec<u8>,
     eof: bool,
+    /// end-of-file was first reported by a peek / has been reported by a read
+    eof_via_peek: bool,
+    eof_confirmed: bool,
     r_err: Option<String>,
     r_accepted: bool,
     log: Vec<String>,
@@ -161,6 +164,11 @@ pub fn scenario(ch: &mut Chooser, thorough: bool) -> Exec {
                             ));
                         }
                         g.eof = true;
+                        if is_peek {
+                            g.eof_via_peek = true;
+                        } else {
+                            g.eof_confirmed = true;
+                        }
                     }
                     if !is_peek {
                         g.consumed.extend_from_slice(&buf[..k]);
@@ -341,7 +349,8 @@ pub fn scenario(ch: &mut Chooser, thorough: bool) -> Exec {
         // done?
         let all_read = g.consumed.len() == g.accepted.len();
         let writer_done = g.w_closed || g.w_err.is_some() || (close == Close::Keep && g.accepted.len() == chunks.iter().sum::<usize>());
-        if writer_done && all_read && (g.eof || close == Close::Keep || g.r_err.is_some()) && suffix {
+        let eof_done = g.eof && (g.eof_confirmed || !g.eof_via_peek);
+        if writer_done && all_read && (eof_done || close == Close::Keep || g.r_err.is_some()) && suffix {
             break;
         }
         if g.r_err.is_some() && suffix {
@@ -375,6 +384,9 @@ pub fn scenario(ch: &mut Chooser, thorough: bool) -> Exec {
         }
         if close != Close::Keep && !g.eof {
             why.push("reader never saw EOF although the writer closed its write side".into());
+        }
+        if g.eof && g.eof_via_peek && !g.eof_confirmed {
+            why.push("a peek reported end-of-file, but the read issued after it never completed (end-of-file must be sticky)".into());
         }
         if !why.is_empty() {
             violation = Some(Violation::new(
